@@ -323,6 +323,12 @@ impl ThriftBackend {
             ty::Path(p) if self.is_i32_enum(p.did) => {
                 format!("__protocol.i32_field_len(Some({id}), ({ident}).inner())").into()
             }
+            // a typedef of bool is a bool on the wire: the compact protocol folds the value into
+            // the field header, so the header has to be sized with the field's real wire type
+            ty::Path(_) if self.ttype(ty) == "::pilota::thrift::TType::Bool" => format!(
+                "(__protocol.field_begin_len(::pilota::thrift::TType::Bool, Some({id})) + __protocol.struct_len({ident}) + __protocol.field_end_len())"
+            )
+            .into(),
             ty::Path(_) => format!("__protocol.struct_field_len(Some({id}), {ident})").into(),
             ty::Arc(ty) => self.codegen_field_size(ty, id, ident),
             _ => unimplemented!(),
